@@ -38,6 +38,12 @@ def conditions(tier):
     for (h, w) in rshapes:
         cs.append(C(HF, "Rooms", "h_text", h, w, l=2 if q else 3, t=T, key="h_text:Rooms:" + ("1xN" if min(h, w) == 1 else "HxW")))
         cs.append(C(HF, "ValuedRooms", "h_text", h, w, l=(2 if h * w >= 3 else 3) if q else 4, t=2 * T, key="h_text:ValuedRooms:" + ("1xN" if min(h, w) == 1 else "HxW")))
+    # a room codec that does not start at offset 0 of the text; a grid codec object used for another board size before
+    for (h, w) in ([(1, 2), (2, 2)] if q else [(1, 2), (2, 1), (2, 2), (1, 3)]):
+        cs.append(C(HF, "Tupl_Hex_VRooms", "h_text", h, w, l=4, t=3 * T))
+        cs.append(C(HF, "Tupl_Hex_Rooms", "h_text", h, w, l=3, t=2 * T))
+    cs.append(C(HF, "Grid_SpacesHex", "h_text", 1, 2, l=3, t=2 * T, VERIF_PRIOR="2,2,1i", key="h_text-after-other-size:Grid_SpacesHex"))
+    cs.append(C(HF, "Grid_SpacesHex", "h_value_grid", 1, 3, t=T, VERIF_PRIOR="2,2,1i", key="h_value-after-other-size:Grid_SpacesHex"))
     for (h, w) in ([(2, 2)] if q else [(2, 2), (2, 3), (1, 3)]):
         cs.append(C(HF, "Rooms", "h_rooms_order", h, w, l=2, t=4 * T, VERIF_NPERM=4 if q else 8))
         cs.append(C(HF, "ValuedRooms_hex", "h_rooms_order", h, w, l=2, t=4 * T, VERIF_NPERM=4 if q else 8))
